@@ -14,7 +14,7 @@
    reports in ([r_launch]), which tasks refuse CONFIGURE ([r_cfgerr]), whether the first critical task
    refuses a transition ([fail] / [tfail]), which stage of the creation fails ([c_fail]).
    Definitions only; shared by C04 and C06 (one case type, two monitors). *)
-From Verif Require Import Common Ownership.
+From Verif Require Import Common Ownership Gen_TdOrder.
 Open Scope N_scope.
 
 (* ---------- environment states ---------- *)
@@ -30,7 +30,8 @@ Inductive rkind :=
 | RPlain                               (* task role without trigger *)
 | RHookTask (after : bool) (w : Z)     (* task role with trigger DESTROY+w / after_DESTROY+w *)
 | RHookCall (after : bool) (w : Z)     (* call role with trigger DESTROY+w / after_DESTROY+w *)
-| RPend.                               (* call role started at before_CONFIGURE, awaited at a moment that never comes *)
+| RPend                                (* call role started at before_CONFIGURE, awaited at a moment that never comes *)
+| RLeave (st : N).                     (* call role started at leave_<environment state st>, awaited at a moment that never comes *)
 
 Record role := mkRole {
   r_kind : rkind;
@@ -101,6 +102,19 @@ Definition bound_tids (x : env) : list tid :=
 
 Definition pend_roles (x : env) : N := Nlen (filter is_pend (e_roles x)).
 
+(* calls started by the leave_<st> hooks: they run on every event that leaves state st (also one that
+   then fails, also GO_ERROR) and in TeardownEnvironment for the state the environment is in *)
+Definition leave_cnt (x : env) (st : N) : N :=
+  Nlen (filter (fun r => match r_kind r with RLeave s => N.eqb s st | _ => false end) (e_roles x)).
+Definition add_pend (n : N) (x : env) : env := set_pend (e_pend x + n) x.
+Definition leave_upd (st : N) (x : env) : env := add_pend (leave_cnt x st) x.
+
+(* the order of the steps of TeardownEnvironment, from gen/Gen_TdOrder.v (regenerated from the source):
+   [before a b] = step a stands before step b *)
+Fixpoint step_idx (a : N) (l : list N) : nat :=
+  match l with [] => 0 | y :: r => if N.eqb y a then 0 else S (step_idx a r) end.
+Definition before (a b : N) : bool := Nat.ltb (step_idx a td_steps) (step_idx b td_steps).
+
 (* ---------- DESTROY / after_DESTROY hooks ---------- *)
 Definition hook_weight (after : bool) (r : role) : option Z :=
   match r_kind r with
@@ -153,22 +167,28 @@ Record tdres := mkTd {
   td_ok : bool;
   td_calls : list tid;         (* DESTROY call hooks invoked, in order *)
   td_trigs : list tid;         (* DESTROY hook tasks triggered, in order *)
-  td_hookr : option roster     (* the roster at the moment the DESTROY hooks ran, if they did *)
+  td_hookr : option roster;    (* the roster at the moment the DESTROY hooks ran, if they did *)
+  td_left : N                  (* calls of the environment still pending and not cancelled at the end *)
 }.
 
 Definition teardown (force : bool) (e : N) (s : st) : tdres :=
   match find_env e (s_envs s) with
-  | None => mkTd s false [] [] None
+  | None => mkTd s false [] [] None 0
   | Some x =>
-      if N.eqb (e_state x) ES_DONE then mkTd s false [] [] None
+      if N.eqb (e_state x) ES_DONE then mkTd s false [] [] None 0
       else if negb force && negb (N.eqb (e_state x) ES_STANDBY || N.eqb (e_state x) ES_DEPLOYED)
-      then mkTd s false [] [] None
+      then mkTd s false [] [] None 0
       else
+        (* leave_<state> hooks (step 1) start calls; cancelCallsPendingAwait (step 4) sweeps what is
+           pending at that moment: whatever is started after the sweep stays *)
+        let started := leave_cnt x (e_state x) in
+        let left := if before 4 1 then started else 0 in
         let groups := merged x in
         let hooktids := flat_map (group_tasks e) groups in
         let torelease := filter (fun id => negb (mem_tid id hooktids)) (bound_tids x) in
         let '(r1, n1) := release e torelease (s_roster s) in
-        if negb (N.eqb n1 0) then mkTd (mkSt (s_envs s) r1 (s_snaps s)) false [] [] None
+        if negb (N.eqb n1 0)
+        then mkTd (mkSt (upd_env e (add_pend started) (s_envs s)) r1 (s_snaps s)) false [] [] None (e_pend x + started)
         else
           let calls := flat_map (group_calls e) groups in
           (* task hooks of each weight, only those whose role is still ACTIVE *)
@@ -176,10 +196,10 @@ Definition teardown (force : bool) (e : N) (s : st) : tdres :=
           let trigs := concat trig_groups in
           (* the second release names the DESTROY hook tasks of every weight, ACTIVE or not *)
           let lastmsg := hooktids in
-          let envs1 := upd_env e (set_pend 0) (s_envs s) in       (* cancelCallsPendingAwait *)
+          let envs1 := upd_env e (set_pend left) (s_envs s) in       (* cancelCallsPendingAwait *)
           let '(r2, n2) := release e lastmsg r1 in
-          if negb (N.eqb n2 0) then mkTd (mkSt envs1 r2 (s_snaps s)) false calls trigs (Some r1)
-          else mkTd (mkSt (remove_env e (s_envs s)) r2 (s_snaps s)) true calls trigs (Some r1)
+          if negb (N.eqb n2 0) then mkTd (mkSt envs1 r2 (s_snaps s)) false calls trigs (Some r1) left
+          else mkTd (mkSt (remove_env e (s_envs s)) r2 (s_snaps s)) true calls trigs (Some r1) left
   end.
 
 (* ---------- outputs of one step ---------- *)
@@ -248,7 +268,7 @@ Definition snap (e : N) (missing : bool) (s : st) : st * out :=
 Definition create_tail (x : env) (s : st) (cmds : list tid) (launched : list tid) : st * out :=
   let t := teardown true (e_id x) s in
   let '(r', k) := kill_tasks (bound_tids x) (s_roster (td_st t)) in
-  (with_roster (td_st t) r', mkOut 1 k cmds (td_calls t) (td_trigs t) 0 launched).
+  (with_roster (td_st t) r', mkOut 1 k cmds (td_calls t) (td_trigs t) (td_left t) launched).
 
 Definition finish (e : N) (c : cspec) (s : st) : st * out :=
   match assocN e (s_snaps s) with
@@ -260,14 +280,14 @@ Definition finish (e : N) (c : cspec) (s : st) : st * out :=
       else
         let x0 := mkEnv e (c_dets c) ES_STANDBY (c_roles c) false 0 in
         if N.eqb (c_fail c) 4 then
-          let xe := set_estate ES_ERROR x0 in
+          let xe := set_estate ES_ERROR (leave_upd ES_STANDBY (leave_upd ES_STANDBY x0)) in
           create_tail xe (with_envs s0 (s_envs s0 ++ [xe])) [] []
         else
           let x1 := set_bound x0 in
           let launched := map (fun ir => tid_of e (fst ir)) (task_iroles x1) in
           let r1 := s_roster s0 ++ map (launch_task e) (task_iroles x1) in
           if existsb (fun r => is_task_role r && N.eqb (r_launch r) 1) (c_roles c) || N.eqb (c_fail c) 5 then
-            let xe := set_estate ES_ERROR x1 in
+            let xe := set_estate ES_ERROR (leave_upd ES_STANDBY (leave_upd ES_STANDBY x1)) in
             create_tail xe (mkSt (s_envs s0 ++ [xe]) r1 (s_snaps s0)) [] launched
           else
             (* CONFIGURE *)
@@ -275,9 +295,9 @@ Definition finish (e : N) (c : cspec) (s : st) : st * out :=
             let refuse := map (fun ir => tid_of e (fst ir))
                               (filter (fun ir => r_cfgerr (snd ir)) (task_iroles x1)) in
             let r2 := command e targets refuse TS_CONFIGURED r1 in
-            let x2 := set_pend (pend_roles x1) x1 in
+            let x2 := add_pend (pend_roles x1) (leave_upd ES_DEPLOYED (leave_upd ES_STANDBY x1)) in
             if existsb (fun r => is_task_role r && r_crit r && r_cfgerr r) (c_roles c) then
-              let xe := set_estate ES_ERROR x2 in
+              let xe := set_estate ES_ERROR (leave_upd ES_DEPLOYED x2) in
               create_tail xe (mkSt (s_envs s0 ++ [xe]) r2 (s_snaps s0)) targets launched
             else
               (mkSt (s_envs s0 ++ [set_estate ES_CONFIGURED x2]) r2 (s_snaps s0),
@@ -296,7 +316,9 @@ Definition go_error (e : N) (s : st) : st * N :=
   | None => (s, 1)
   | Some x =>
       let rc := if N.leb (e_state x) ES_RUNNING then 0 else 1 in
-      (with_envs s (upd_env e (set_estate ES_ERROR) (s_envs s)), rc)
+      (with_envs s (upd_env e (fun y => set_estate ES_ERROR
+                                          (if N.leb (e_state y) ES_RUNNING then leave_upd (e_state y) y else y))
+                            (s_envs s)), rc)
   end.
 
 Definition control (e : N) (ev : N) (fail : bool) (s : st) : st * out :=
@@ -309,7 +331,7 @@ Definition control (e : N) (ev : N) (fail : bool) (s : st) : st * out :=
           if negb (N.eqb (e_state x) src) then
             let '(s', _) := go_error e s in (s', out_rc 1)   (* the error of the requested transition is returned *)
           else
-            let pend' := if N.eqb ev 1 then e_pend x + pend_roles x else e_pend x in
+            let pend' := e_pend x + leave_cnt x src + (if N.eqb ev 1 then pend_roles x else 0) in
             let s1 := with_envs s (upd_env e (set_pend pend') (s_envs s)) in
             let '(r', targets, ok) := transition x tdst fail (s_roster s) in
             if ok then
@@ -328,8 +350,8 @@ Definition dtc (force keep : bool) (x : env) (s : st) : st * out :=
   let t1 := teardown force e s in
   let t := if td_ok t1 || force then t1
            else let t2 := teardown true e (td_st t1) in
-                mkTd (td_st t2) (td_ok t2) (td_calls t1 ++ td_calls t2) (td_trigs t1 ++ td_trigs t2) (td_hookr t2) in
-  let left := match find_env e (s_envs (td_st t)) with Some x' => e_pend x' | None => 0 end in
+                mkTd (td_st t2) (td_ok t2) (td_calls t1 ++ td_calls t2) (td_trigs t1 ++ td_trigs t2) (td_hookr t2) (td_left t2) in
+  let left := match find_env e (s_envs (td_st t)) with Some x' => e_pend x' | None => td_left t end in
   if negb (td_ok t) then (td_st t, mkOut 1 [] [] (td_calls t) (td_trigs t) left [])
   else if keep then (td_st t, mkOut 0 [] [] (td_calls t) (td_trigs t) left [])
   else
@@ -339,6 +361,30 @@ Definition dtc (force keep : bool) (x : env) (s : st) : st * out :=
                     end in
     (with_roster (td_st t) r', mkOut 0 k [] (td_calls t) (td_trigs t) left []).
 
+(* after the optional STOP_ACTIVITY: [go_on] = it did not fail *)
+Definition destroy_tail (e : N) (x : env) (keep : bool) (s1 : st) (o1 : out) (go_on tf : bool) : st * out :=
+  if negb go_on then let '(s2, o2) := dtc true false x s1 in (s2, out_seq o1 o2)
+  else
+    match find_env e (s_envs s1) with
+    | None => (s1, out_rc 1)
+    | Some x1 =>
+        let st1 := e_state x1 in
+        if negb (N.eqb st1 ES_CONFIGURED || N.eqb st1 ES_DEPLOYED || N.eqb st1 ES_STANDBY)
+        then let '(s2, o2) := dtc true false x s1 in (s2, out_seq o1 o2)
+        else if N.eqb st1 ES_CONFIGURED then
+          (* RESET *)
+          let '(r', targets, ok) := transition x1 TS_STANDBY tf (s_roster s1) in
+          let o1' := out_seq o1 (mkOut 0 [] targets [] [] 0 []) in
+          if ok then
+            let s2 := mkSt (upd_env e (fun y => set_estate ES_DEPLOYED (leave_upd ES_CONFIGURED y)) (s_envs s1)) r' (s_snaps s1) in
+            let '(s3, o3) := dtc false keep x s2 in (s3, out_seq o1' o3)
+          else
+            let '(s3, o3) := dtc true false x (mkSt (upd_env e (leave_upd ES_CONFIGURED) (s_envs s1)) r' (s_snaps s1)) in
+            (s3, out_seq o1' o3)
+        else
+          let '(s3, o3) := dtc false keep x s1 in (s3, out_seq o1 o3)
+    end.
+
 Definition destroy (e : N) (force allow keep tfail : bool) (s : st) : st * out :=
   match find_env e (s_envs s) with
   | None => (s, out_rc 1)
@@ -346,33 +392,16 @@ Definition destroy (e : N) (force allow keep tfail : bool) (s : st) : st * out :
       if force then dtc true keep x s
       else
         (* STOP_ACTIVITY first when allowed in RUNNING *)
-        let '(s1, o1, go_on, tfail1) :=
-          if allow && N.eqb (e_state x) ES_RUNNING then
-            let '(r', targets, ok) := transition x TS_CONFIGURED tfail (s_roster s) in
-            if ok then (mkSt (upd_env e (set_estate ES_CONFIGURED) (s_envs s)) r' (s_snaps s),
-                        mkOut 0 [] targets [] [] 0 [], true, false)
-            else (with_roster s r', mkOut 0 [] targets [] [] 0 [], false, false)
-          else (s, out_rc 0, true, tfail) in
-        if negb go_on then let '(s2, o2) := dtc true false x s1 in (s2, out_seq o1 o2)
-        else
-          match find_env e (s_envs s1) with
-          | None => (s1, out_rc 1)
-          | Some x1 =>
-              let st1 := e_state x1 in
-              if negb (N.eqb st1 ES_CONFIGURED || N.eqb st1 ES_DEPLOYED || N.eqb st1 ES_STANDBY)
-              then let '(s2, o2) := dtc true false x s1 in (s2, out_seq o1 o2)
-              else if N.eqb st1 ES_CONFIGURED then
-                (* RESET *)
-                let '(r', targets, ok) := transition x1 TS_STANDBY tfail1 (s_roster s1) in
-                let o1' := out_seq o1 (mkOut 0 [] targets [] [] 0 []) in
-                if ok then
-                  let s2 := mkSt (upd_env e (set_estate ES_DEPLOYED) (s_envs s1)) r' (s_snaps s1) in
-                  let '(s3, o3) := dtc false keep x s2 in (s3, out_seq o1' o3)
-                else
-                  let '(s3, o3) := dtc true false x (with_roster s1 r') in (s3, out_seq o1' o3)
-              else
-                let '(s3, o3) := dtc false keep x s1 in (s3, out_seq o1 o3)
-          end
+        if allow && N.eqb (e_state x) ES_RUNNING then
+          let '(r', targets, ok) := transition x TS_CONFIGURED tfail (s_roster s) in
+          if ok
+          then destroy_tail e x keep
+                 (mkSt (upd_env e (fun y => set_estate ES_CONFIGURED (leave_upd ES_RUNNING y)) (s_envs s)) r' (s_snaps s))
+                 (mkOut 0 [] targets [] [] 0 []) true false
+          else destroy_tail e x keep
+                 (mkSt (upd_env e (leave_upd ES_RUNNING) (s_envs s)) r' (s_snaps s))
+                 (mkOut 0 [] targets [] [] 0 []) false false
+        else destroy_tail e x keep s (out_rc 0) true tfail
   end.
 
 (* ---------- requests ---------- *)
@@ -385,7 +414,8 @@ Inductive op :=
 | OCleanup
 | OKill (ids : list tid)
 | ODies (t : tid)
-| OFail (ids : list tid).   (* the executor (or the agent) running exactly these tasks failed *)
+| OFail (ids : list tid)    (* the executor (or the agent) running exactly these tasks failed *)
+| ORecon.                   (* the master answers a reconciliation: TASK_RUNNING, agent id, no executor id, for every running task *)
 
 Definition step (s : st) (o : op) : st * out :=
   match o with
@@ -401,6 +431,7 @@ Definition step (s : st) (o : op) : st * out :=
   | OKill ids => let '(r', k) := kill_tasks ids (s_roster s) in (with_roster s r', mkOut 0 k [] [] [] 0 [])
   | ODies t => (with_roster s (task_dies t (s_roster s)), out_rc 0)
   | OFail ids => (with_roster s (fail_tasks ids (s_roster s)), out_rc 0)
+  | ORecon => (with_roster s (recon_tasks (s_roster s)), out_rc 0)
   end.
 
 (* the environment a request is issued for *)
